@@ -178,7 +178,7 @@ def _canon(o, depth=0):
         return ('queue', tuple(_canon(x, depth + 1) for x in o.queue))
     n = type(o).__name__
     if n == 'CRTPPacket':
-        return ('pk', o.header, o._port, o._channel, tuple(o._data))
+        return ('pk', o.header, o.port, o.channel, tuple(o.data))
     if n == '_radio_ack':
         return ('ack', o.ack, o.powerDet, o.retry, tuple(o.data))
     if n == 'RadioDriver':
@@ -662,7 +662,7 @@ def _build(cfg, hist, verbose=False):
     os.environ.pop('CRTP_PCAP_LOG', None)
     w = _World(cfg, hist, verbose)
     clock = w.clock = _VClock()
-    saved = (radiodriver.time, radio_link_statistics.time, radiodriver._nr_of_retries)
+    saved = (radiodriver.time, radio_link_statistics.time, getattr(radiodriver, '_nr_of_retries', None))
     radiodriver.time = clock
     radio_link_statistics.time = clock
     try:
@@ -695,7 +695,8 @@ def _build(cfg, hist, verbose=False):
                   'no link error reported' % (e, w.ntx))
     finally:
         radiodriver.time, radio_link_statistics.time = saved[0], saved[1]
-        radiodriver._nr_of_retries = saved[2]
+        if saved[2] is not None:
+            radiodriver.set_retries_before_disconnect(saved[2])
     return w
 
 
@@ -723,7 +724,7 @@ def _expand(args):
                 raise HarnessError('no state captured for %r' % (h2,))
             key = _h(w.state) if w.state is not None else _h(('dead', h2))
             kind, opts = w.pending if w.pending else ('dead', ())
-            outcome = (_mode(w), kind, tuple(sorted(set(w.events))), w.thread._retry_before_disconnect,
+            outcome = (_mode(w), kind, tuple(sorted(set(w.events))), _canon(getattr(w.thread, '_retry_before_disconnect', None)),
                        w.get_timeouts[-1] if w.get_timeouts else None)
             summ = None
             out.append((h2, key, kind, opts, new_viol, outcome, summ, w.ntx))
